@@ -365,6 +365,14 @@ func (x *Exec) Run(lines []string) {
 			for _, m := range x.Mons {
 				m.AfterBlock(x)
 			}
+		case "MODE":
+			switch f[1] {
+			case "amino":
+				x.mode = signing.SignMode_SIGN_MODE_LEGACY_AMINO_JSON
+			default:
+				x.mode = signing.SignMode_SIGN_MODE_DIRECT
+			}
+			x.Out.Decl("%s", l)
 		case "VB":
 			x.history = x.history[:len(x.history)-1]
 			pm, err := x.parseMsg(append([]string{"M"}, f[1:]...))
@@ -377,6 +385,11 @@ func (x *Exec) Run(lines []string) {
 			x.Stats["vbres:"+strings.Join(strings.Split(v, " ")[:2], " ")]++
 			if v == "V panic" {
 				x.Findings = append(x.Findings, finding{Clause: "C17-validate-panic", Detail: "ValidateBasic panicked", Cmd: l})
+			}
+			if want, known := specAccepts(f[1], pm.Args); known && v != "V panic" && len(x.Findings) < 40 {
+				if got := v == "V ok"; got != want {
+					x.Findings = append(x.Findings, finding{Clause: "C16-limits", Detail: fmt.Sprintf("stateless validation answers %q but the published limits say accept=%v", v, want), Cmd: l})
+				}
 			}
 			if sg == "S panic" {
 				x.Findings = append(x.Findings, finding{Clause: "C17-signers-panic", Detail: "GetSigners panicked after successful validation", Cmd: l})
